@@ -82,7 +82,7 @@ let base_name = function
 
 let run_case (cfgs : string) (toks : string list) (impl_dumps : string list option) : string =
   let c = parse_cfg cfgs in
-  let dup = (c.kind = "mset" || c.kind = "mmap") in
+  let dup = (c.kind = "mset" || c.kind = "mmap" || c.kind = "dms") in
   let ismap = (c.kind = "map" || c.kind = "mmap") in
   (* the comparator is stateful in the harness (run-time direction): every variable carries its own
      direction, which travels with copy / assignment / swap; each operation is run on the model with the
